@@ -176,10 +176,18 @@ Proof. vm_compute. eexists. eexists. repeat split. Qed.
 """)
 
 SPECS["C12"] = ("""property C12: a store call that fails changes nothing observable.
-   Concrete model: the committed tables (all that lookups, queries, markers and counters read) are
-   untouched; only the event log may have grown by the appended bytes (stats.event_bytes,
-   explicitly outside the property).  Abstract store: the state is literally unchanged.""",
-  DBIMP, [
+   Concrete model: the committed tables are untouched; only the event log may have grown by the appended bytes
+   (stats.event_bytes, explicitly outside the property).  For every reachable state this is lifted to what a caller
+   can observe (DbFailedStore.v): every id-level and address-level read API, every counter but the byte count, the
+   extra tables, and the answer of EVERY query (any filter, screen and scraping allowances, all seven plans) and of
+   both address lookups are exactly as before.  Abstract store: the state is literally unchanged.""",
+  DBIMP + "\nFrom Pocket Require Import DbIdInv DbIndexInv DbFailedStore.", [
+  ("C12_failed_store_observations_unchanged",
+   "forall ops names e s' r, let s := c_run ops (db_init names) in\n    store_event s e = (s', r) -> (forall off, r <> Ok off) ->\n    (forall id, has_event s' id = has_event s id) /\\\n    (forall id, event_is_deleted s' id = event_is_deleted s id) /\\\n    (forall id, get_event_by_id s' id = get_event_by_id s id) /\\\n    (forall a, naddr_is_deleted_asof s' a = naddr_is_deleted_asof s a) /\\\n    t_extra (committed s') = t_extra (committed s) /\\\n    removelast (stats s') = removelast (stats s) /\\\n    bak s' = bak s",
+   "failed_store_observations_unchanged", "after ANY history, whatever the failure (duplicate, deleted, replaced, invalid delete at the k-th tag, key size, panic): every lookup by id, every deletion marker, every address marker, the extra tables and all nine entry counters are as before"),
+  ("C12_failed_store_queries_unchanged",
+   "forall ops names e s' r, ops_wf ops -> let s := c_run ops (db_init names) in\n    store_event s e = (s', r) -> (forall off, r <> Ok off) ->\n    (forall f screen now allow_scraping allow_limit allow_seconds,\n       find_events s' f screen now allow_scraping allow_limit allow_seconds\n       = find_events s f screen now allow_scraping allow_limit allow_seconds) /\\\n    (forall author k, find_replaceable_event s' author k = find_replaceable_event s author k) /\\\n    (forall a, find_param_replaceable_event s' a = find_param_replaceable_event s a)",
+   "failed_store_queries_unchanged", "... and so is the answer of EVERY query: any filter, any screen, any scraping allowances, whichever of the seven plans serves it (the bytes a failed store appended lie beyond every offset an index holds), and of both address lookups"),
   ("C12_failed_store_noop",
    "forall s e s' r, store_event s e = (s', r) -> (forall off, r <> Ok off) ->\n    committed s' = committed s /\\ bak s' = bak s /\\ (s' = s \\/ s' = fst (log_append s e))",
    "store_event_failure_noop", "every failure: duplicate, deleted, replaced, invalid delete at tag k, key size, panic"),
@@ -364,9 +372,10 @@ SPECS["C17"] = ("""property C17: every access path agrees and index accounting n
    exactly the image of the id index (no leaked entry, no missing key, one entry per key), and the
    single-key tables have exactly one entry per retrievable event.  ALL QUERY PATHS AGREE WITH THE ID INDEX
    (DbQueryNewest.v / DbQueryComplete.v): whichever of the seven plans serves a filter, an event is in the
-   untruncated answer exactly when the lookup by its id returns it and it matches.  Still decided only per
-   run: that the distinct-(letter, padded value) count formula of the tag tables matches the code.""",
-  DBIMP.replace("DbProofs.", "DbProofs TableProofs DbIdInv DbIndexInv.") + "\nFrom Pocket Require Import DbQuerySound KeyOrder DbAddr DbQueryComplete DbQueryNewest.", [
+   untruncated answer exactly when the lookup by its id returns it and it matches.  The three tag-table counters
+   are proved equal in every reachable state (DbTagCounts.v); and their common value is proved to be one entry
+   per distinct key of every retrievable event (tag_index_count_formula).""",
+  DBIMP.replace("DbProofs.", "DbProofs TableProofs DbIdInv DbIndexInv.") + "\nFrom Pocket Require Import DbQuerySound KeyOrder DbAddr DbQueryComplete DbQueryNewest DbTagCounts.", [
   ("C17_range_scan_exact_partial",
    "forall t lo hi k v, In (k, v) (t_range t lo hi) <-> In (k, v) t /\\ lex_lt k lo = false /\\ lex_lt hi k = false",
    "t_range_spec", ""),
@@ -392,6 +401,12 @@ SPECS["C17"] = ("""property C17: every access path agrees and index accounting n
   ("C17_single_key_counts_agree",
    "forall ops names, ops_wf ops -> let tb := committed (c_run ops (db_init names)) in\n    len (t_ci tb) = len (t_i tb) /\\ len (t_ac tb) = len (t_i tb) /\\ len (t_akc tb) = len (t_i tb)",
    "index_counts_agree", "the counter equalities the harness checks after every operation"),
+  ("C17_tag_index_counts_agree",
+   "forall ops names, ops_wf ops -> let tb := committed (c_run ops (db_init names)) in\n    len (t_atc tb) = len (t_tc tb) /\\ len (t_ktc tb) = len (t_tc tb)",
+   "tag_index_counts_agree", "the three tag tables: the author-tag and the kind-tag index are the tag index with the author / the kind in front of every key, so in every reachable state the three counters are equal - none of them can leak or lose an entry alone (the harness checks the same equality, and the common value against the distinct (letter, padded value) pairs of the retrievable events)"),
+  ("C17_tag_index_count_formula",
+   "forall ops names, ops_wf ops -> let s := c_run ops (db_init names) in\n    length (t_tc (committed s))\n    = list_sum (map (fun io => match log_find (log s) (snd io) with\n                               | Some e => length (nodup bytes_eq_dec (keys_tc e))\n                               | None => 0%nat\n                               end) (t_i (committed s)))",
+   "tag_index_count_formula", "the VALUE of the tag-table counters: in every reachable state the tag index holds, for every retrievable event, exactly one entry per DISTINCT key of the event (key = letter, value padded or cut to 182 bytes, time, id): repeated tags and values that collide after padding count once, nothing else is there. With C17_tag_index_counts_agree the same number is in the author-tag and kind-tag tables"),
   ("C17_query_paths_agree_with_id_index",
    "forall ops names f now allow_scraping allow_limit allow_seconds out red,\n    ops_wfe ops -> let s := c_run ops (db_init names) in\n    filter_ok f -> limit_exceeds_store s f ->\n    find_events s f all_match now allow_scraping allow_limit allow_seconds = Ok (out, red) ->\n    forall e, In e out <-> (get_event_by_id s (e_id e) = Ok (Some e) /\\ spec_matches f e = true)",
    "query_paths_agree_with_id_index", "every reachable state, every filter (32-byte authors, u16 kinds, one-letter tag names) whose limit does not truncate, whichever of the seven plans serves it (ids / author+kind / author+tag / kind+tag / tag / author / time window): the answer is exactly the events the id lookup returns that match - no access path serves an event another path denies"),
@@ -920,7 +935,10 @@ SPECS["C15"] = ("""property C15: event references stay valid and unchanged while
    before it dangles (refs_move_witness).  The property is therefore stated for histories outside
    the known class (no growth step relocates the mapping); any other way a reference changes is
    still a violation.""",
-  "From Pocket Require Import Db DbProofs Refs.", [
+  "From Pocket Require Import Db DbProofs Refs LogBytes LogBytesProofs.", [
+  ("C15_bytes_immutable_in_the_file",
+   "forall chunk m lg E e off x, 0 < chunk -> chunk mod 8 = 0 -> R m lg E -> wf_aevent e -> fits_event e ->\n    len (file m) + event_size e + chunk < B64 -> In (off, x) lg -> off < E ->\n    forall m' o, es_store chunk m (enc_event e) = Ok (m', o) ->\n    es_get m' off = es_get m off /\\ es_get m off = Ok (enc_event x) /\\ o <> off",
+   "es_store_keeps", "byte level (LogBytes.v): a store - padding, any number of growth steps, the copy, the marker update - changes no byte of any event stored before it and never hands out its offset again; what a reference denotes can only change by the mapping MOVING (the known finding), never by its bytes changing"),
   ("C15_bytes_immutable",
    "forall s off e ops, get_event_by_offset s off = Ok e -> get_event_by_offset (c_run ops s) off = Ok e",
    "readback_forever", "whatever is stored afterwards, by any operation"),
